@@ -302,7 +302,14 @@ func (s *Store) Close() error {
 	vhook.Point("close.stopped")
 	cerr := s.Err()
 
-	err := s.index.Close()
+	// Write the primary data before the index is flushed and closed, as commit
+	// does, so that a crash in between never leaves index records that name
+	// primary data which is not on disk.
+	_, err := s.index.Primary.Flush()
+	if err != nil {
+		cerr = err
+	}
+	err = s.index.Close()
 	if err != nil {
 		cerr = err
 	}
